@@ -151,6 +151,9 @@ def shared_slices(rng, n_out, seed):
         # the last output as a bare negative integer is what "the pressure is the last output" looks like
         if seed % 4 == 1:
             forms[-1] = -1
+        # ... and the first output as the bare integer 0 (a falsy value)
+        if seed % 4 == 3 or seed % 5 == 0:
+            forms[0] = 0
         sl = forms
     return tuple(sl), list(sl)
 
